@@ -127,12 +127,14 @@ def c10_families(rng, tier):
 
 
 def c18_families(rng, tier):
-    idx = list(range(0, 64)) + [(1 << 32) - 1, 1 << 32, (1 << 32) + 1, 1 << 63, (1 << 64) - 1, (1 << 64) - 2, 255, 256, 65535, 65536]
+    idx = list(range(0, 70001)) + [(1 << 32) - 1, 1 << 32, (1 << 32) + 1, 1 << 63, (1 << 64) - 1, (1 << 64) - 2]
+    for k in (8, 16, 24, 32, 40, 48, 56):   # an in-range low part under every byte boundary (truncating casts)
+        idx += [(1 << k) + j for j in (0, 1, 51, 52, 255)]
     n = 2000 if tier == "quick" else 200000
     idx += [rng.next() >> rng.below(64) for _ in range(n)]
     return [fam("deck_get", ["deckget %d" % i for i in idx],
-                "Deck::get on 0..63, powers-of-two boundaries, usize::MAX and seeded random usize of every "
-                "magnitude; non-trivial = distinct index",
+                "Deck::get on EVERY index 0..=70000 (all u8/u16 truncation classes), 2^k + small offsets for every byte boundary, "
+                "usize::MAX and seeded random usize of every magnitude; non-trivial = distinct index",
                 categories={"in_range": sum(1 for i in idx if i < 52), "past_end": sum(1 for i in idx if i >= 52)})]
 
 
@@ -536,7 +538,18 @@ def c07_families(rng, tier):
         vx, vy = 1 <= x <= 7462, 1 <= y <= 7462
         cats["valid_valid" if vx and vy else ("invalid_invalid" if not vx and not vy else "valid_invalid")] += 1
         rnd.append("hrcmp %d %d" % (x, y))
+    diag = ["hrcmp %d %d" % (v, v) for v in range(0, 65536, 1 if tier == "thorough" else 7)]
+    adj_valid, adj_other = [], []
+    for v in list(range(0, 7470)) + [32767, 65534]:
+        tgt = adj_valid if 1 <= v and v + 1 <= 7462 else adj_other
+        tgt.append("hrcmp %d %d" % (v, v + 1))
+        tgt.append("hrcmp %d %d" % (v + 1, v))
     return [
+        fam("diagonal", diag, "every 7th value (thorough: every value) against itself: cmp Equal, ==, <=, >= (fixed by C07_reflexive / C07_eq)",
+            pinned=True),
+        fam("adjacent_valid", adj_valid, "every adjacent pair of valid values in both orders: the lower value is Greater (fixed by C07_order)",
+            pinned=True),
+        fam("adjacent_other", adj_other, "adjacent pairs around 0, 7462/7463 and the top of the range (order among invalid ranks is not fixed by the property)"),
         fam("boundary_pairs", pairs, "ALL ordered pairs over every category boundary +-1, 0, 7462..7465, powers of two, 65534/65535 and 12 seeded "
             "values: cmp, partial_cmp, ==, !=, <, <=, >, >= (the ORDER AMONG INVALID RANKS is the model's choice, not demanded by the "
             "property, so a disagreement here is not by itself a failing input: the oracle decides)"),
